@@ -102,9 +102,18 @@ package stack
 //@   trusted
 //@   ensures oc16(uint64(result)) == oc16(wsum16(r.LocalAddress, 0, len(r.LocalAddress)) + wsum16(r.RemoteAddress, 0, len(r.RemoteAddress)) + uint64(uint8(protocol)))
 
-//@ func (*Stack).FindRoute props C07 C06 C11
+//@ func (*Stack).FindRoute props C07 C06 C11 C09
 //@   trusted
-//@   modifies everything()
+//@   modifies modset(NETQUIET)
+
+// ASSUMED frames of (un)registration in the demultiplexer: no transport endpoint object changes.
+//@ func (*Stack).RegisterTransportEndpoint props C09
+//@   trusted
+//@   modifies modset(NETQUIET)
+
+//@ func (*Stack).UnregisterTransportEndpoint props C09
+//@   trusted
+//@   modifies modset(NETQUIET)
 
 //@ func (*Stack).CheckLocalAddress props C07 C06 C11
 //@   trusted
@@ -120,10 +129,11 @@ package stack
 //@   modifies ghost(tcpSegs), ghost(lastTCPFlags), ghost(lastTCPSeq), ghost(lastTCPAck), ghost(sentNonFin), ghost(sentFin)
 //@   modifies ghost(icmpSent), ghost(lastICMPType), ghost(lastICMPCode), ghost(lastICMPHdrLen), ghost(lastICMPPayloadArr), ghost(lastICMPPayloadOff), ghost(lastICMPPayloadLen)
 
-// What the stack core may change when called from TCP code: anything except existing TCP
-// sender, receiver, segment and endpoint objects (an endpoint's inbound segment queue may change).
+// What the stack core may change when called from transport code: anything except existing TCP
+// sender, receiver, segment and endpoint objects (an endpoint's inbound segment queue may
+// change) and existing UDP endpoint and packet objects.
 //@ func modset.NETQUIET
-//@   modifies everything_but("protocol/transport/tcp.sender", "protocol/transport/tcp.receiver", "protocol/transport/tcp.endpoint", "protocol/transport/tcp.segment"), structfamily("protocol/transport/tcp.endpoint", "segmentQueue")
+//@   modifies everything_but("protocol/transport/tcp.sender", "protocol/transport/tcp.receiver", "protocol/transport/tcp.endpoint", "protocol/transport/tcp.segment", "protocol/transport/udp.endpoint", "protocol/transport/udp.udpPacket"), structfamily("protocol/transport/tcp.endpoint", "segmentQueue")
 
 // The effect of handing a packet down (stack.Route.WritePacket), see the assumed frame there.
 //@ func modset.NETSEND
